@@ -951,7 +951,8 @@ func (self *PathNode) GetByStr(key string, opts *Options) *PathNode {
 		n, _ := self.Node.len()
 		N := n * 2
 		// TODO: cap may change after Set. Use better way to store hash size
-		if N > 0 && cap(self.Next) >= N {
+		// only a map above the threshold has been stored by hash (see scanChildren)
+		if n > StoreChildrenByIntHashShreshold && cap(self.Next) >= N {
 			if s := getStrHash(&self.Next, key, N); s != nil {
 				return s
 			}
@@ -984,7 +985,8 @@ func (self *PathNode) SetByStr(key string, val Node, opts *Options) (bool, error
 		n, _ := self.Node.len()
 		N := n * 2
 		// TODO: cap may change after Set. Use better way to store hash size
-		if N > 0 && cap(self.Next) >= N {
+		// only a map above the threshold has been stored by hash (see scanChildren)
+		if n > StoreChildrenByIntHashShreshold && cap(self.Next) >= N {
 			if s := getStrHash(&self.Next, key, N); s != nil {
 				s.setNode(val)
 				return true, nil
@@ -1022,7 +1024,8 @@ func (self *PathNode) GetByInt(key int, opts *Options) *PathNode {
 		// TODO: size may change after Set. Use better way to store hash size
 		n, _ := self.Node.len()
 		N := n * 2
-		if N > 0 && cap(self.Next) >= N {
+		// only a map above the threshold has been stored by hash (see scanChildren)
+		if n > StoreChildrenByIntHashShreshold && cap(self.Next) >= N {
 			if s := getIntHash(&self.Next, uint64(key), N); s != nil {
 				return s
 			}
@@ -1054,7 +1057,8 @@ func (self *PathNode) SetByInt(key int, val Node, opts *Options) (bool, error) {
 	if opts.StoreChildrenByHash {
 		n, _ := self.Node.len()
 		N := n * 2
-		if N > 0 && cap(self.Next) >= N {
+		// only a map above the threshold has been stored by hash (see scanChildren)
+		if n > StoreChildrenByIntHashShreshold && cap(self.Next) >= N {
 			if s := getIntHash(&self.Next, uint64(key), N); s != nil {
 				s.setNode(val)
 				return true, nil
